@@ -83,8 +83,15 @@ func (g *G) RandomSettings(full bool) Settings {
 	s.TimeFieldFormat = timeFormats[r.Intn(len(timeFormats))]
 	s.DurationFieldUnit = []time.Duration{1, 1000, 1000000, 1000000000, 7}[r.Intn(5)]
 	s.DurationFieldInteger = r.Bool()
-	s.FloatingPointPrecision = []int{-1, -1, -1, 0, 2, 10}[r.Intn(6)]
-	s.ErrMarshal = []int{0, 0, 0, 1, 2, 3, 4, 5}[r.Intn(8)]
+	s.FloatingPointPrecision = []int{-1, -1, -1, 0, 2, 10, 1, 40}[r.Intn(8)]
+	s.ErrMarshal = []int{0, 0, 0, 1, 2, 3, 4, 5, 6}[r.Intn(9)]
+	if r.Chance(1, 2) {
+		// Caller() fields: a CallerMarshalFunc with a fixed (arbitrary) text makes them deterministic
+		s.CallerText = g.V.String()
+		if s.CallerText == "" {
+			s.CallerText = "c"
+		}
+	}
 	s.StackMarshal = []int{0, 0, 1, 2, 3, 4, 5, 6}[r.Intn(8)]
 	if full {
 		pick := func(def string) string {
@@ -98,6 +105,7 @@ func (g *G) RandomSettings(full bool) Settings {
 		s.TimestampFieldName = pick("time")
 		s.ErrorFieldName = pick("error")
 		s.ErrorStackFieldName = pick("stack")
+		s.CallerFieldName = pick("caller")
 	}
 	if r.Chance(1, 5) {
 		s.GlobalLevel = zerolog.Level(r.Intn(5) - 1)
@@ -172,6 +180,13 @@ func (g *G) GenProgram(maxChain, maxEvents, maxOps int) *Program {
 				st.Ops = append(st.Ops, g.keyedOp(FeContext, 0, &stack))
 			}
 			ctxFields = append(ctxFields, outOf(st.Ops)...)
+		case choice == 6 && g.S.CallerText != "" && r.Chance(1, 3):
+			// Context.Caller(): a hook that adds the caller field when the event is finalized
+			st.Kind = "WithCaller"
+			hookID++
+			h := &HookSpec{ID: hookID, Kind: 6, Out: []KVI{{g.S.CallerFieldName, Str(g.S.CallerText)}}}
+			st.Hooks = []*HookSpec{h}
+			hooks = append(hooks[:len(hooks):len(hooks)], h)
 		case choice == 6:
 			st.Kind = "WithTimestamp"
 			hookID++
@@ -185,7 +200,7 @@ func (g *G) GenProgram(maxChain, maxEvents, maxOps int) *Program {
 			st.Kind = "WithCtx"
 			st.CtxVal = fmt.Sprintf("ctx%d", i)
 			goctx = st.CtxVal
-		case choice == 9 && lastWith:
+		case choice == 9 && (lastWith || g.P.UpdateAnywhere):
 			st.Kind = "UpdateContext"
 			n := 1 + r.Intn(3)
 			for j := 0; j < n; j++ {
@@ -442,6 +457,8 @@ func (x *Exec) BuildLogger(base zerolog.Logger, chain []Step, out *Rec, hookLog 
 			l = c.Logger()
 		case "WithTimestamp":
 			l = l.With().Timestamp().Logger()
+		case "WithCaller":
+			l = l.With().Caller().Logger()
 		case "WithStack":
 			l = l.With().Stack().Logger()
 		case "WithCtx":
